@@ -301,7 +301,11 @@ def check_one(mod, fmt: str, opts: dict, shape: str, expr: str):
     if fmt in ("msgpack", "toml") and not opts.get("strategy"):
         # "on top of the format's own requirements": where the format carries a type natively without a dialect
         # (bytes in MessagePack, datetime/date/time in TOML) it still does with one that does not mention that type
-        plain = leaf_types(parse(E(T).encode(eval(expr, ns))))
+        try:
+            plain = leaf_types(parse(E(T).encode(eval(expr, ns))))
+        except Exception as e:  # noqa: BLE001
+            return {"stage": "format-without-dialect", "observed": f"{type(e).__name__}: {e}",
+                    "expected": "the format's own document (no default_dialect given)"}
         withd = leaf_types(parse(wire))
         diff = {k: (withd[k], plain[k]) for k in withd if k in plain and withd[k] != plain[k]}
         if diff:
